@@ -81,6 +81,16 @@ CHECKS = {
             'coarse-fragment and atomistic level; parsed attributes must equal the record with documented defaults and '
             'types, stay on the coarse node, and appear on every fine copy of the annotated atom.',
             '4/C14', ''),
+    'C10': ('property-based testing: model-by-construction with shared atoms vs resolved graph, metamorphic twin (disjoint description), atom-count and membership invariants',
+            'The C01 construction with a random subset of cut bonds replaced by shared atoms (copies with [!x] in both '
+            'fragments); result isomorphic to the model and to the disjoint description, heavy atoms = fragment atoms - '
+            'shared pairs, merged atoms belong to both coarse nodes.',
+            '4/C10', ''),
+    'C11': ('property-based testing: metamorphic relation with/without virtual nodes and order-0 edges, membership invariant, fault twin (bonded virtual node must raise)',
+            'A resolvable string is decorated with fragment-less nodes attached by order-0 edges (any position, several, '
+            'ring bonds) and order-0 edges between real nodes; molecule and per-node membership must be unchanged, for '
+            'from_string and for from_graph with shuffled node order; the twin with a bonded virtual node must raise SyntaxError.',
+            '4/C11', ''),
     'C16': ('property-based testing: generated sampler configurations, invariant over the output and the reconstructed growth history (model of open descriptors)',
             'Sampler configurations are generated (fragments, descriptors, reactivity / conditional tables, terminal sets, '
             'seeds, targets); every returned molecule is checked for connectivity, canonical numbering, tree-of-copies '
